@@ -183,26 +183,26 @@ type Stub struct {
 	SigOK bool
 }
 
-func (d *Stub) Version() cert.Version           { return cert.Version(d.F.Version) }
-func (d *Stub) Curve() cert.Curve               { return cert.Curve(d.F.Curve) }
-func (d *Stub) Groups() []string                { return d.F.Groups }
-func (d *Stub) IsCA() bool                      { return d.F.IsCA }
-func (d *Stub) Issuer() string                  { return d.F.Issuer }
-func (d *Stub) Name() string                    { return d.F.Name }
-func (d *Stub) Networks() []netip.Prefix        { return d.F.Networks }
-func (d *Stub) NotAfter() time.Time             { return d.F.NotAfter }
-func (d *Stub) NotBefore() time.Time            { return d.F.NotBefore }
-func (d *Stub) PublicKey() []byte               { return d.F.PublicKey }
-func (d *Stub) Signature() []byte               { return d.F.Signature }
-func (d *Stub) UnsafeNetworks() []netip.Prefix  { return d.F.Unsafe }
-func (d *Stub) CheckSignature(key []byte) bool  { return d.SigOK }
-func (d *Stub) MarshalForHandshakes() ([]byte, error) { return nil, nil }
-func (d *Stub) MarshalPEM() ([]byte, error)     { return nil, nil }
-func (d *Stub) MarshalJSON() ([]byte, error)    { return nil, nil }
-func (d *Stub) Marshal() ([]byte, error)        { return nil, nil }
-func (d *Stub) String() string                  { return "stub" }
-func (d *Stub) Copy() cert.Certificate          { return d }
-func (d *Stub) MarshalPublicKeyPEM() []byte     { return nil }
+func (d *Stub) Version() cert.Version                         { return cert.Version(d.F.Version) }
+func (d *Stub) Curve() cert.Curve                             { return cert.Curve(d.F.Curve) }
+func (d *Stub) Groups() []string                              { return d.F.Groups }
+func (d *Stub) IsCA() bool                                    { return d.F.IsCA }
+func (d *Stub) Issuer() string                                { return d.F.Issuer }
+func (d *Stub) Name() string                                  { return d.F.Name }
+func (d *Stub) Networks() []netip.Prefix                      { return d.F.Networks }
+func (d *Stub) NotAfter() time.Time                           { return d.F.NotAfter }
+func (d *Stub) NotBefore() time.Time                          { return d.F.NotBefore }
+func (d *Stub) PublicKey() []byte                             { return d.F.PublicKey }
+func (d *Stub) Signature() []byte                             { return d.F.Signature }
+func (d *Stub) UnsafeNetworks() []netip.Prefix                { return d.F.Unsafe }
+func (d *Stub) CheckSignature(key []byte) bool                { return d.SigOK }
+func (d *Stub) MarshalForHandshakes() ([]byte, error)         { return nil, nil }
+func (d *Stub) MarshalPEM() ([]byte, error)                   { return nil, nil }
+func (d *Stub) MarshalJSON() ([]byte, error)                  { return nil, nil }
+func (d *Stub) Marshal() ([]byte, error)                      { return nil, nil }
+func (d *Stub) String() string                                { return "stub" }
+func (d *Stub) Copy() cert.Certificate                        { return d }
+func (d *Stub) MarshalPublicKeyPEM() []byte                   { return nil }
 func (d *Stub) VerifyPrivateKey(c cert.Curve, k []byte) error { return nil }
 func (d *Stub) Fingerprint() (string, error) {
 	if d.FpErr {
